@@ -1927,38 +1927,89 @@ func c11Text(c *ctx, in []byte) {
 	// itself survive print -> parse -> print and keep its meaning on the fixed witnesses
 	c.call("c11.text", in, func() {
 		t := q.Print()
+		kind, what := c11AcceptedRoundTrip(q, t)
+		if kind == "" {
+			return
+		}
+		// Empty groups are a known limitation of the text form (c11.edge empty-group cases):
+		// And() and Or() both print "()", nothing at the root. The failure is put into that
+		// class if and only if the empty groups are its sole cause: the same printed text
+		// with the empty groups (and the connective next to each) taken out must be a clean
+		// fixpoint. Any other cause keeps the general class.
 		class := "accepted-text"
-		if i := strings.Index(t, "()"); i >= 0 && (i == 0 || t[i-1] != '"') {
-			class = "accepted-text-empty-group" // same defect as the c11.edge empty-group cases
-		}
-		if strings.HasSuffix(t, " where ") || strings.Contains(t, " where  orderby ") || strings.Contains(t, " where  limit ") || strings.Contains(t, " where  offset ") {
-			class = "accepted-text-empty-group" // an empty root group prints as nothing
-		}
-		q2, err := query.ParseQuery(t)
-		if err != nil {
-			d := detail()
-			d["printed"] = t
-			b.Violation("C11:reparse-error:"+class, fmt.Sprintf("ParseQuery accepts %q; the resulting query prints %q, which is rejected: %v", trunc(in, 200), t, err), d)
-			return
-		}
-		if t2 := q2.Print(); t2 != t {
-			d := detail()
-			d["printed"] = t
-			b.Violation("C11:print-differs:"+class, fmt.Sprintf("ParseQuery accepts %q; the resulting query prints %q, which parses to a query printing %q", trunc(in, 200), t, t2), d)
-			return
-		}
-		for _, w := range c11FixedWitnesses {
-			sr, _ := c11StructView(w)
-			for _, rec := range []record.Record{sr, c11JSONRec(w)} {
-				if c11Match(q, rec) != c11Match(q2, rec) {
-					d := detail()
-					d["printed"] = t
-					b.Violation("C11:meaning-differs:"+class, fmt.Sprintf("ParseQuery accepts %q; printed as %q and parsed again it matches %s differently", trunc(in, 200), t, c11WitText(w)), d)
-					return
+		if stripped, had := c11StripEmptyGroups(t); had {
+			func() {
+				defer func() { _ = recover() }()
+				if qs, err := query.ParseQuery(stripped); err == nil {
+					ts := qs.Print()
+					if k, _ := c11AcceptedRoundTrip(qs, ts); k == "" {
+						class = "accepted-text-empty-group"
+					}
 				}
+			}()
+		}
+		d := detail()
+		d["printed"] = t
+		b.Violation("C11:"+kind+":"+class, fmt.Sprintf("ParseQuery accepts %q; %s", trunc(in, 200), what), d)
+	})
+}
+
+// c11AcceptedRoundTrip: q printed as t must parse, print identically and match the fixed
+// witnesses like q.
+func c11AcceptedRoundTrip(q *query.Query, t string) (kind, what string) {
+	q2, err := query.ParseQuery(t)
+	if err != nil {
+		return "reparse-error", fmt.Sprintf("the resulting query prints %q, which is rejected: %v", t, err)
+	}
+	if t2 := q2.Print(); t2 != t {
+		return "print-differs", fmt.Sprintf("the resulting query prints %q, which parses to a query printing %q", t, t2)
+	}
+	for _, w := range c11FixedWitnesses {
+		sr, _ := c11StructView(w)
+		for _, rec := range []record.Record{sr, c11JSONRec(w)} {
+			if c11Match(q, rec) != c11Match(q2, rec) {
+				return "meaning-differs", fmt.Sprintf("printed as %q and parsed again it matches %s differently", t, c11WitText(w))
 			}
 		}
-	})
+	}
+	return "", ""
+}
+
+// c11StripEmptyGroups removes every empty group "()" (outside quoted tokens) from a
+// printed query together with a "not" in front of it and one neighbouring and/or; an
+// empty root group (a "where" with nothing after it) loses the "where". had reports
+// whether there was one.
+func c11StripEmptyGroups(t string) (stripped string, had bool) {
+	toks := c11Tokens(t)
+	isConn := func(s string) bool { return s == "and" || s == "or" }
+	for changed := true; changed; {
+		changed = false
+		for i := 0; i+1 < len(toks); i++ {
+			if toks[i] != "(" || toks[i+1] != ")" {
+				continue
+			}
+			lo, hi := i, i+2
+			if lo > 0 && toks[lo-1] == "not" {
+				lo--
+			}
+			if lo > 0 && isConn(toks[lo-1]) {
+				lo--
+			} else if hi < len(toks) && isConn(toks[hi]) {
+				hi++
+			}
+			toks = append(toks[:lo:lo], toks[hi:]...)
+			had, changed = true, true
+			break
+		}
+	}
+	for i := 0; i < len(toks); i++ { // dangling where
+		if toks[i] == "where" && i >= 2 && (i+1 == len(toks) || toks[i+1] == "orderby" || toks[i+1] == "limit" || toks[i+1] == "offset") {
+			toks = append(toks[:i:i], toks[i+1:]...)
+			had = true
+			break
+		}
+	}
+	return strings.Join(toks, " "), had
 }
 
 // ---------------------------------------------------------------------------------
